@@ -105,7 +105,7 @@ static Cond cond_ref(const gh::Solvers& S, double lat1, double azi1, const ref::
 
 struct Lib { double a12, lat2, lon2, azi2, s12, m12, M12, M21, S12; };
 static bool finite4(const Lib& o) { return std::isfinite(o.m12) && std::isfinite(o.M12) && std::isfinite(o.M21) && std::isfinite(o.S12) && std::isfinite(o.azi2); }
-static double angdiff_deg(double from, double to) { return (double)std::remainder((long double)std::remainder(to, 360.0) - (long double)std::remainder(from, 360.0), 360.0L); }
+static double angdiff_deg(double from, double to, double offset = 0) { return (double)std::remainder((long double)std::remainder(to, 360.0) - (long double)std::remainder(from, 360.0) - (long double)offset, 360.0L); }
 
 template <class G> static Lib call_direct(const G& g, double lat1, double lon1, double azi1, bool arcmode, double len, unsigned mask = G::ALL) {
   Lib o; double nan = std::numeric_limits<double>::quiet_NaN(); o = Lib{nan, nan, nan, nan, nan, nan, nan, nan, nan};
@@ -147,7 +147,11 @@ static void judge4(Ctx& c, const std::string& cls, const std::string& keybase, c
   }
   if (which & 4) {
     q128 dazi = ref::remainder((q128)o.azi2 - P.azi2, (q128)360) - dazi1_deg;
-    double e = (double)(ref::fabs((q128)o.S12 - P.S12 - S.E.c2 * dazi * ref::deg<q128>()) / S.E.a), Ts = T * cd.S;
+    q128 rS = (q128)o.S12 - P.S12 - S.E.c2 * dazi * ref::deg<q128>();
+    // end point on a pole (or closer to it than 1e-12 a): REF's own (longitude, azimuth) pair is degenerate there and the azimuth
+    // difference is only defined modulo 360 deg (+-180 deg ambiguity), i.e. the compensated residual modulo half the ellipsoid area
+    if ((double)P.cbet2 < 1e-12 && (double)ref::fabs(rS) > (double)(S.E.area() / 8)) { rS = ref::remainder(rS, S.E.area() / 2); c.event("oracle area residual reduced by a multiple of half the ellipsoid area (end point on a pole: +-180 deg azimuth convention)"); }
+    double e = (double)(ref::fabs(rS) / S.E.a), Ts = T * cd.S;
     double eraw = (double)(ref::fabs((q128)o.S12 - P.S12) / S.E.a);
     c.obs("S12 error/a (azimuth-compensated, author's err[6]) / tolerance [" + keybase + sv + "]", e / Ts, J(w).f("err_m", e).f("conditioning", cd.S));
     if ((double)P.cbet2 > 0.1) c.obs("S12 error/a raw, end point > 6 deg from a pole / tolerance [" + keybase + sv + "]", eraw / Ts, J(w).f("err_m", eraw));
@@ -300,7 +304,7 @@ template <class G> static void laws_for(Ctx& c, const Case& k, const char* fam, 
     Lib q = call_direct(g, p13.lat2, p13.lon2, back, k.arcmode, len13);
     if (!finite4(q)) { c.viol(std::string("law:C03/non-finite-output/") + fam, cls, w); return; }
     double fm = std::fabs(q.m12 - p13.m12) / c13.m, f1 = std::fabs(q.M12 - p13.M21) * b / c13.M21, f2 = std::fabs(q.M21 - p13.M12) * b / c13.M12;
-    bool wq; double fS = std::fabs(area_resid(c, q.S12 + p13.S12 - c2 * DEG * angdiff_deg(k.azi1 + 180, q.azi2), c2, generic, wq)) / a / c13.S;
+    bool wq; double fS = std::fabs(area_resid(c, q.S12 + p13.S12 - c2 * DEG * angdiff_deg(k.azi1, q.azi2, 180), c2, generic, wq)) / a / c13.S;
     c.obs(std::string("reversal (azi2+180, +s12): max residual / tolerance [") + fam + "]", std::max(std::max(fm, fS), std::max(f1, f2)) / T, w);
     J d2 = J(w).f("tol_m", T).f("cond_m", c13.m).f("cond_M12", c13.M12).f("cond_M21", c13.M21).f("cond_S", c13.S).f("m12", p13.m12).f("m12_rev", q.m12).f("M12", p13.M12).f("M21", p13.M21).f("M12_rev", q.M12).f("M21_rev", q.M21).f("S12", p13.S12).f("S12_rev", q.S12).f("azi2", p13.azi2).f("azi1_rev", q.azi2);
     if (fm > T) c.viol(std::string("law:C03/reversal-turned/") + fam + "/m12", cls, J(d2).f("err_over_cond_m", fm));
